@@ -143,3 +143,12 @@ def c20(o):
         return None
     o["shas"][0] = "0000000000000000"  # one process printed something else
     return o
+
+
+def system(o):
+    """A behaviour of the integrated layer: the last successful conversion returns one query less."""
+    for st in reversed(o["steps"]):
+        if st["last"]["queries"]:
+            st["last"] = dict(st["last"], queries=st["last"]["queries"][:-1])
+            return o
+    return None
